@@ -234,6 +234,15 @@ def run_sequences(bounded, tier, seed):
                     distinct.add(seq[:2])
                 if msg and len(fails) < 20:
                     fails.setdefault(seq[-1][0] if False else msg.split(" ")[0][:24] + cls.__name__, {"witness": {"class": cls.__name__, "ops": repr(list(seq))}, "detail": msg})
+    # observe - mutate - observe: an ordering (or any other derived view) computed once must not survive a later mutation by ANY operation
+    for cls in cls_list:
+        for setup in ([("setitem", "a", 1)], [("setitem", "a", 1), ("setitem", "b", None)], [("setitem", "B", 1), ("setitem", "a", 1), ("setitem", "ß", 1)]):
+            for op in ops:
+                seq = setup + [("order",), op, ("order",)]
+                cases += 1
+                msg = run_seq(cls, seq)
+                if msg and len(fails) < 20:
+                    fails.setdefault("omo" + msg.split(" ")[0][:24] + cls.__name__, {"witness": {"class": cls.__name__, "ops": repr(list(seq))}, "detail": msg})
     rnd = random.Random(seed)
     nrand = 300 if tier == "quick" else 5000
     for i in range(nrand):
